@@ -148,11 +148,11 @@ def gen_program(rng, allow=None, control: str = "scf", effects: bool = False, se
 
 def parse(text: str):
     from xdsl.context import Context
-    from xdsl.dialects import arith, builtin, cf, func, scf
+    from xdsl.dialects import affine, arith, builtin, cf, func, scf
     from xdsl.parser import Parser
 
     ctx = Context()
-    for d in (builtin.Builtin, arith.Arith, func.Func, scf.Scf, cf.Cf):
+    for d in (builtin.Builtin, arith.Arith, func.Func, scf.Scf, cf.Cf, affine.Affine):
         ctx.load_dialect(d)
     return Parser(ctx, text).parse_module()
 
@@ -309,4 +309,27 @@ def range_fold_family(rng, n: int):
     func.return %r : i16
   }}
 }}"""
+        yield text, [16, 16], [16]
+
+
+def affine_family(rng, n: int):
+    """affine.for with constant bounds (zero-trip and negative ranges, steps 1-3) whose body evaluates an affine.apply over the
+    induction variable and a symbol taken from an argument (negative values included: mod / floordiv / ceildiv are floor-based)."""
+    shapes = ["d0 + {c}", "d0 * {c}", "(d0 + s0) mod {p}", "d0 mod {p}", "s0 mod {p}", "d0 floordiv {p}", "s0 floordiv {p}", "(d0 + s0) ceildiv {p}",
+              "s0 ceildiv {p}", "(d0 * {c} + s0) mod {p}", "(s0 + d0 * {c}) floordiv {p}", "s0 * {c} + d0", "(d0 mod {p}) + (s0 floordiv {q})"]
+    for _ in range(n):
+        lb, ub, st = rng.randint(-3, 2), rng.randint(-2, 6), rng.choice([1, 1, 2, 3])
+        e = rng.choice(shapes).format(c=rng.choice([-3, -1, 2, 5]), p=rng.choice([1, 2, 3, 4, 7]), q=rng.choice([2, 3]))
+        text = f"""func.func @main(%a0 : i16, %a1 : i16) -> i16 {{
+  %s = arith.index_cast %a0 : i16 to index
+  %r = "affine.for"(%a1) <{{"lowerBoundMap" = affine_map<() -> ({lb})>, "upperBoundMap" = affine_map<() -> ({ub})>, "step" = {st} : index, operandSegmentSizes = array<i32: 0, 0, 1>}}> ({{
+  ^bb0(%i : index, %acc : i16):
+    %v = affine.apply affine_map<(d0)[s0] -> ({e})> (%i)[%s]
+    %vi = arith.index_cast %v : index to i16
+    %n = arith.addi %acc, %vi : i16
+    "affine.yield"(%n) : (i16) -> ()
+  }}) : (i16) -> i16
+  func.return %r : i16
+}}
+"""
         yield text, [16, 16], [16]
